@@ -251,13 +251,16 @@ impl Rng {
 
 fn build_feature(item: &Value) -> gherkin::Feature {
     let fid = item["id"].as_u64().unwrap_or(1) as usize;
-    let mut f = util::feature(&format!("F{fid}"), vec![]);
+    let ftags = if item["serial_feature"].as_bool().unwrap_or(false) { vec!["serial".to_owned()] } else { vec![] };
+    let mut f = util::feature(&format!("F{fid}"), ftags);
     f.position.line = fid;
     let mut rules: Vec<gherkin::Rule> = Vec::new();
     for sc in item["scenarios"].as_array().into_iter().flatten() {
         let sid = sc["id"].as_u64().unwrap_or(0);
         let mut tags = Vec::new();
-        if sc["serial"].as_bool().unwrap_or(false) {
+        // `serial` is the effective classification; the tag sits on the scenario itself unless `serial_own` says
+        // that it is inherited from the rule or the feature
+        if sc["serial_own"].as_bool().unwrap_or(sc["serial"].as_bool().unwrap_or(false)) {
             tags.push("serial".to_owned());
         }
         if let Some(r) = sc["retry"].as_array() {
@@ -282,7 +285,12 @@ fn build_feature(item: &Value) -> gherkin::Feature {
                 if let Some(r) = rules.iter_mut().find(|r| r.position.line == rid as usize) {
                     r.scenarios.push(s);
                 } else {
-                    let mut r = util::rule(&format!("R{rid}"), vec![], rid as usize);
+                    let rtags = if item["serial_rules"].as_array().is_some_and(|a| a.iter().any(|x| x.as_u64() == Some(rid))) {
+                        vec!["serial".to_owned()]
+                    } else {
+                        vec![]
+                    };
+                    let mut r = util::rule(&format!("R{rid}"), rtags, rid as usize);
                     r.scenarios.push(s);
                     rules.push(r);
                 }
